@@ -189,6 +189,11 @@ def _run(case, ctx):
                 for opn, fn in (("add", lambda: a + b), ("sub", lambda: a - b), ("lt", lambda: a < b),
                                 ("le", lambda: a <= b), ("gt", lambda: a > b), ("ge", lambda: a >= b)):
                     _must_refuse(ctx, f"mixed-{opn}", fn, info)
+                # a zero of another type is still of another type (zero-valued quantities are falsy floats)
+                bz, az = B(0.0, ub), A(-0.0, ua)
+                for opn, fn in (("add-zero", lambda: a + bz), ("sub-zero", lambda: a - bz), ("zero-add", lambda: az + b), ("zero-sub", lambda: az - b),
+                                ("lt-zero", lambda: a < bz), ("ge-zero", lambda: az >= b)):
+                    _must_refuse(ctx, f"mixed-{opn}", fn, info)
         ctx.seen("result_kinds", f"{A.__name__}*{B.__name__}->{type(A(1.0) * B(1.0)).__name__}")
         if named and A is not B:
             ctx.nontrivial = True
@@ -246,6 +251,9 @@ def _run(case, ctx):
                 _must_refuse(ctx, "number-q", lambda: 2 - a, info)
                 _must_refuse(ctx, "q-number", lambda: a - 2, info)
                 _must_refuse(ctx, "q<number", lambda: a < 1.0, info)
+                for opn, fn in (("q+0", lambda: a + 0), ("q+0.0", lambda: a + 0.0), ("0+q", lambda: 0 + a), ("0.0-q", lambda: 0.0 - a), ("q-0", lambda: a - 0),
+                                ("q+False", lambda: a + False), ("q+SI0", lambda: a + _mk_si(ssig, 0.0))):
+                    _must_refuse(ctx, opn, fn, info)
                 # zero is a value like any other (a zero quantity is a falsy float)
                 z = A(0.0, ua)
                 for opn, r, want in (("add-zero", a + z, float(a) + 0.0), ("zero-add", z + a, 0.0 + float(a)), ("sub-zero", a - z, float(a) - 0.0),
